@@ -78,3 +78,20 @@ PROPS["C18"] = Spec(
     "left; non-trivial = >=2 listening contexts and at least one successful and one failing add/registration",
     assumptions=COMMON_ASSUMPTIONS,
 )
+
+PROPS["C01"] = Spec(
+    engine="harness.engines.teardown",
+    quick_cases=1500, thorough_cases=15000,
+    rule="one context block (root / nested in a root / callbacks registered from component code during start_component; "
+    "optionally inside an unrelated `except` handler) with 0-8 (thorough 0-14) teardown callbacks registered through the four "
+    "routes (ctx.add_teardown_callback, module-level add_teardown_callback, add_resource(teardown_callback=), @context_teardown "
+    "function/method), sync / async with checkpoints and sleeps / sync returning an awaitable, with or without pass_exception, "
+    "raising Exception/BaseException/KeyboardInterrupt/SystemExit/ExceptionGroup before or after their await, registering "
+    "further callbacks during teardown (depth<=2); block ends by return, by raising (5 exception classes) or by cancellation at "
+    "the k-th body checkpoint; oracle = reference LIFO stack over the observed registration order, begin/end trace equality, "
+    "identity of the exception passed in, group-membership rule for callback exceptions, caller-visible outcome; "
+    "non-trivial = >=2 callbacks and one of: raising callback, async callback, registration during teardown, non-return "
+    "ending, ambient exception",
+    bounds={"quick": "<=8 top-level callbacks, nesting depth<=2, 4x1500 cases", "thorough": "<=14 top-level callbacks, 16x15000 cases"},
+    assumptions=COMMON_ASSUMPTIONS,
+)
